@@ -141,3 +141,19 @@ Qed.
 (** the assertion `pdb_command.trace_no == trace_no` never fails *)
 Theorem no_assertion_failure : forall ls l i, ~ In (l, OAssert i) (trace ls).
 Proof. intros ls. apply (i_no_assert _ _ (Inv_reach ls)). Qed.
+
+From NL Require Import Prompt.Spec.
+
+Lemma arrival_check_sound tr i c : arrival_check tr i c = true -> decoy_after_arrival tr i c.
+Proof.
+  intros H pre post Htr Hin Ho. unfold arrival_check in H. rewrite forallb_forall in H.
+  assert (Hp : pre = firstn (length pre) tr).
+  { rewrite Htr. rewrite firstn_app, Nat.sub_diag, firstn_all. simpl. rewrite app_nil_r. reflexivity. }
+  specialize (H (length pre)). rewrite <- Hp in H. simpl in H.
+  assert (Hs : In (length pre) (seq 0 (S (length tr)))).
+  { apply in_seq. rewrite Htr, app_length. lia. }
+  apply H in Hs. rewrite Ho, Z.eqb_refl in Hs. simpl in Hs.
+  assert (He : existsb (Nat.eqb i) (relayed pre) = true).
+  { apply existsb_exists. exists i. split; [assumption|apply Nat.eqb_refl]. }
+  rewrite He in Hs. discriminate.
+Qed.
